@@ -74,7 +74,13 @@ CLAIMS.update({
          "END TO END (write_then_read_by_key, faulty_write_then_read_by_key, write_hash_then_read): for every flavour, key, "
          "well-formed options, chunking and initial state with a valid store - if the write answers ok (healthy run or any "
          "fault plan), the answer is the digest of the bytes fed and read-by-key and read-by-address in the resulting state "
-         "return exactly those bytes (hypotheses: a regular file sits at the address, the digest does not collide on it). Correspondence: all write "
+         "return exactly those bytes (hypotheses: a regular file sits at the address, the digest does not collide on it). "
+         "REFINEMENT WITH TOTAL CORRECTNESS (cache_refines_map, Lemmas/CacheRefine, 1950 lines): any sequence of keyed writes "
+         "(any flavour / options / chunking, mapped or plain writer), reads, removals, lookups, index insertions and by-address "
+         "writes / reads / exists / remove_hash, run as programs from a healthy cache (the empty cache is one), answers like "
+         "the abstract state (key -> entry, address -> bytes) - every write succeeds and leaves no temp file; corollaries "
+         "read_after_write / readHash_after_writeHash (exactly the data, NO collision hypothesis) and "
+         "get_returns_last_put_data (after any later operations that neither write the key nor remove the address). Correspondence: all write "
          "entry points x sizes x chunkings x algorithms against the model, hashlib monitor on addresses and read-back.",
     note=TB + "`_partial`: that a healthy run DOES answer ok on every healthy filesystem is exercised by the correspondence "
          "only. The record codec's round trip is a theorem (Lemmas/JsonRT, Lemmas/Record, Lemmas/CodecLaws) for records "
